@@ -92,12 +92,21 @@ fn check_program(case: &Value, prog: &Program, rng: &mut Rng, res: &mut Vec<Valu
         let feat = |what: &str| json!({"what": what, "site": qt.r, "decl": if d >= 2000 { "lib" } else if d >= 1000 { "item" } else { "local" },
             "decl_role": prog.toks.iter().find(|t| t.idx as u64 == d).map(|t| t.r.clone()).unwrap_or_default(), "ctx": qt.ctx.join("/")});
         let detail = |extra: Value| json!({"case": case, "text": prog.text, "decl": d, "old": old, "query_token": {"idx": qt.idx, "offset": qt.start}, "info": extra});
-        let edit = match a.rename(FilePos::new(M1, (qt.start as u32).into()), fresh).unwrap() {
+        // a library declaration is renamed twice: from the seeded occurrence in m1 and from its declaration in m2
+        let mut sites: Vec<(FileId, usize)> = vec![(M1, qt.start)];
+        if d >= 2000 {
+            let ti = decl_toks.iter().find(|(id, _)| *id == d).unwrap().1;
+            sites.push((M2, lib_decl_range(LIB_TEXT, ti).0));
+        }
+        for (qfile, qoff) in sites {
+        let feat = |what: &str| { let mut f = feat(what); if qfile == M2 { f["site"] = json!("libdecl"); } f };
+        let edit = match a.rename(FilePos::new(qfile, (qoff as u32).into()), fresh).unwrap() {
             Ok(e) => e,
             Err(msg) => {
                 stats.1 += 1;
-                if !stats.3.contains(&msg) {
-                    stats.3.push(msg);
+                let m = format!("{msg} [site {} of a {} declaration]", if qfile == M2 { "libdecl" } else { qt.r.as_str() }, if d >= 2000 { "lib" } else if d >= 1000 { "item" } else { "local" });
+                if !stats.3.contains(&m) {
+                    stats.3.push(m);
                 }
                 continue;
             }
@@ -172,8 +181,8 @@ fn check_program(case: &Value, prog: &Program, rng: &mut Rng, res: &mut Vec<Valu
             continue;
         }
         // ---- rename back
-        let q2 = new_toks.iter().find(|(i, _, _)| *i == q_idx).unwrap();
-        match a2.rename(FilePos::new(M1, (q2.1 as u32).into()), &old).unwrap() {
+        let q2off = if qfile == M1 { new_toks.iter().find(|(i, _, _)| *i == q_idx).unwrap().1 } else { qoff };
+        match a2.rename(FilePos::new(qfile, (q2off as u32).into()), &old).unwrap() {
             Ok(back) => {
                 let mut e1 = vec![];
                 let mut e2 = vec![];
@@ -190,6 +199,7 @@ fn check_program(case: &Value, prog: &Program, rng: &mut Rng, res: &mut Vec<Valu
                 }
             }
             Err(msg) => res.push(json!({"kind": "mismatch", "prop": "C07", "features": feat("rename back refused"), "detail": detail(json!({"new_text": new_m1, "error": msg}))})),
+        }
         }
     }
 }
